@@ -7,7 +7,7 @@ import (
 	"os"
 	"strconv"
 
-	"verifharness/internal/h"
+	"verifharness/pkg/h"
 )
 
 type family func(c *h.Ctx, r *h.Report)
@@ -32,6 +32,14 @@ func main() {
 	if os.Args[1] == "race-child" && len(os.Args) == 4 {
 		seed, _ := strconv.ParseUint(os.Args[3], 10, 64)
 		raceChild(os.Args[2], seed)
+
+		return
+	}
+	if os.Args[1] == "crash-child" && len(os.Args) == 6 {
+		size, _ := strconv.Atoi(os.Args[3])
+		n, _ := strconv.Atoi(os.Args[4])
+		k, _ := strconv.Atoi(os.Args[5])
+		crashChild(os.Args[2], size, n, k)
 
 		return
 	}
